@@ -189,6 +189,40 @@ def drive_clocked(kind, codec, s, sizes, arrivals, eof_tick, T, spec):
     return out, final, problems
 
 
+def drive_growing_bytesio(codec, encs, T, spec):
+    """A caller-owned io.BytesIO that grows while one decoder iterates over it: an empty read of a BytesIO means "end", so data
+    can only be added between objects - the next encoding is appended after each object was handed over, before the decoder is
+    asked again. -> (outputs, final)"""
+    st = io.BytesIO()
+    pending = list(encs)
+
+    def feed():
+        if pending:
+            pos = st.tell()
+            st.seek(0, io.SEEK_END)
+            st.write(pending.pop(0))
+            st.seek(pos)
+    feed()
+    out, final = [], 'stop'
+    try:
+        it = iter(lib.DEC[codec].StreamingDecoder(st, asn1Spec=spec) if spec is not None else lib.DEC[codec].StreamingDecoder(st))
+        for _ in range(4 * len(encs) + 8):
+            try:
+                x = next(it)
+            except StopIteration:
+                break
+            if isinstance(x, _base.Asn1Item):
+                out.append(snap(T, x, spec))
+                feed()
+        else:
+            final = 'livelock'
+    except error.PyAsn1Error as ex:
+        final = lib.Out('err', exc=ex).errclass()
+    except Exception as ex:
+        final = 'leak:' + type(ex).__name__
+    return out, final
+
+
 def clocked_schedules(s, d, count):
     """(sizes, arrival ticks, eof tick): cuts inside the stream, arrival ticks close together so that bursts land between
     consecutive reads."""
@@ -274,7 +308,9 @@ def run_case(case, col=None, sched_iter=None):
     if case.get('schedule') is not None:
         sc = case['schedule']
         specs = [x for x in specs if x[0] == sc['spec']]
-        if sc.get('clocked'):
+        if sc.get('double') == 'growing-bytesio':
+            scheds, doubles, clocked = [], [], []
+        elif sc.get('clocked'):
             scheds, doubles = [], []
             clocked, clock_kinds = [sc['clocked']], [sc['double']]
         else:
@@ -308,6 +344,16 @@ def run_case(case, col=None, sched_iter=None):
                       sig='%s/%s' % (final, ref_final), obs=obs)
                 for pk, pm in problems:
                     F(sub, pk, '%s | chunks=%s polls=%s eof_late=%s s=%s' % (pm, sizes[:20], list(polls), eof_late, s.hex()[:100]), obs=obs)
+        # a plain BytesIO growing between objects
+        if (case.get('schedule') is None or case['schedule'].get('double') == 'growing-bytesio') and len(case.get('encs') or []) >= 2:
+            out, final = drive_growing_bytesio(codec, case['encs'], T, spec)
+            if col is not None:
+                col.case(s + b'|growing-bytesio|' + sname.encode(), False, ['double:growing-bytesio', sname],
+                         sample={'type': ir.show_type(T), 'stream': s.hex()[:120], 'double': 'io.BytesIO appended to between objects', 'guided': spec is not None})
+            if out != ref_out or final != ref_final:
+                F('growing-bytesio-' + sname, 'differs', 'a BytesIO that gets the next encoding after each object gives %d object(s) then %s; complete input gives %d then %s | s=%s'
+                  % (len(out), final, len(ref_out), ref_final, s.hex()[:100]), sig='%s/%s' % (final, ref_final),
+                  obs={'clocked': None, 'double': 'growing-bytesio', 'spec': sname, 'sizes': [len(e) for e in case['encs']], 'polls': [0], 'eof_late': False})
         # arrival schedules on the reader's clock
         for sizes, arrivals, eof_tick in clocked:
             for kind in clock_kinds:
